@@ -263,24 +263,29 @@ func (t *c15fmTr) stmts(l []ast.Stmt, k func() string, ind string) (string, erro
 		// the loop over the source path
 		if t.elem != "" && !t.inInner && x.Tok == token.DEFINE && x.Key != nil && x.Value != nil && t.pathVars[c15sq(x.X)] {
 			t.inInner, t.innerIdx, t.innerEl, t.innerOver = true, c15sq(x.Key), c15sq(x.Value), c15sq(x.X)
-			// the state of the loop: the variables assigned in its body that were declared outside
+			// the state of the loop: the Value, the type and the value that the call of takeOne in its body reads and assigns
 			t.innerState = nil
-			for _, cand := range []string{"pathInputValue", "pathInputType", "taken"} {
-				if t.rvVars[cand] || t.otyVars[cand] || t.valVars[cand] {
-					t.innerState = append(t.innerState, c15vn(cand))
+			var stV, stT, stX string
+			ast.Inspect(x.Body, func(n ast.Node) bool {
+				if as, ok := n.(*ast.AssignStmt); ok && len(as.Lhs) == 3 && len(as.Rhs) == 1 {
+					if call, ok := as.Rhs[0].(*ast.CallExpr); ok && c15sq(call.Fun) == "takeOne" && len(call.Args) == 3 {
+						stX, stT, stV = c15sq(as.Lhs[0]), c15sq(as.Lhs[1]), c15sq(call.Args[0])
+					}
 				}
-			}
-			if len(t.innerState) != 3 {
+				return true
+			})
+			if !t.rvVars[stV] || !t.otyVars[stT] || !t.valVars[stX] || c15reserved(stV) || c15reserved(stT) || c15reserved(stX) {
 				return "", fmt.Errorf("the loop over the source path: state variables")
 			}
+			t.innerState = []string{c15vn(stV), c15vn(stT), c15vn(stX)}
 			body, err := t.stmts(x.Body.List, t.nextInner, "      ")
 			if err != nil {
 				return "", err
 			}
 			t.inInner = false
-			txt := "Fixpoint from_path_loop (env : senv) (allowMapKeyNotFound : bool) (pathInputValue : rv) (pathInputType : option ty) (taken : val) (" +
+			txt := "Fixpoint from_path_loop (env : senv) (allowMapKeyNotFound : bool) (" + t.innerState[0] + " : rv) (" + t.innerState[1] + " : option ty) (" + t.innerState[2] + " : val) (" +
 				c15vn(t.innerOver) + " : path) {struct " + c15vn(t.innerOver) + "} : option path_outcome :=\n  match " + c15vn(t.innerOver) +
-				" with\n  | [] => Some (PDone taken)\n  | " + c15vn(t.innerEl) + " :: rest =>\n      " + body + "\n  end.\n\n"
+				" with\n  | [] => Some (PDone " + t.innerState[2] + ")\n  | " + c15vn(t.innerEl) + " :: rest =>\n      " + body + "\n  end.\n\n"
 			if t.innerTxt != "" && t.innerTxt != txt {
 				return "", fmt.Errorf("the inner loop is reached in two different scopes")
 			}
@@ -291,7 +296,7 @@ func (t *c15fmTr) stmts(l []ast.Stmt, k func() string, ind string) (string, erro
 			}
 			return "match from_path_loop env allowMapKeyNotFound " + strings.Join(t.innerState, " ") + " " + c15vn(t.innerOver) + " with\n" + ind +
 				"| None => None\n" + ind + "| Some (PReturn err) => Some (GErr err)\n" + ind + "| Some PContinueOuter => " + t.nextOuter() + "\n" + ind +
-				"| Some (PDone taken) =>\n" + ind + "    " + r + "\n" + ind + "end", nil
+				"| Some (PDone " + t.innerState[2] + ") =>\n" + ind + "    " + r + "\n" + ind + "end", nil
 		}
 	case *ast.IfStmt:
 		if x.Init != nil {
@@ -366,7 +371,6 @@ func c15ExtractFieldMap(repo string) (string, string, error) {
 	t := &c15fmTr{input: fl.Type.Params.List[0].Names[0].Name, rvVars: map[string]bool{}, otyVars: map[string]bool{}, valVars: map[string]bool{},
 		pathVars: map[string]bool{}, errTypes: map[string]string{}}
 	t.valVars[t.input] = true
-	t.valVars["taken"] = false
 	body := fl.Body.List
 	li := -1
 	for i, s := range body {
@@ -408,8 +412,6 @@ func c15ExtractFieldMap(repo string) (string, string, error) {
 	if c15reserved(t.elem) {
 		return "", "", fmt.Errorf("fieldMap: loop variable %s", t.elem)
 	}
-	// the variables of the inner state are values / types / Values by their declarations; `taken` is a value
-	t.valVars["taken"] = true
 	lbody, err := t.stmts(rg.Body.List, t.nextOuter, "      ")
 	if err != nil {
 		return "", "", fmt.Errorf("fieldMap (loop body): %v", err)
